@@ -1,9 +1,117 @@
 package f64
 
+// Property C08, in-repo part for gonum.org/v1/gonum/internal/asm/f64: every
+// exported kernel against the scalar loop of its doc comment. This file is
+// injected into the package with go test -overlay; the machinery is in
+// verifharness/inrepo/ik.
+
 import (
 	"testing"
 
+	"verifharness/inrepo/ik"
 	"verifharness/vk"
 )
 
 func TestMain(m *testing.M) { vk.Main(m, "C08") }
+
+type (
+	vkArgs = ik.Args[float64]
+	vkOp   = ik.Op[float64]
+)
+
+var (
+	vkAll    = []int{ik.ClsFinite, ik.ClsExtreme, ik.ClsSpecial}
+	vkNoSpec = []int{ik.ClsFinite, ik.ClsExtreme}
+)
+
+func vkRet(v float64) complex128 { return complex(v, 0) }
+
+var vkOps = []*vkOp{
+	{Name: "AxpyUnitary", Family: "Axpy", Classes: vkAll, Ref: ik.RefAxpyUnitary[float64],
+		Shape: ik.Shape{HasX: true, HasY: true, WritesY: true, Alpha: true},
+		Call:  func(a *vkArgs) { AxpyUnitary(a.Alpha, a.X, a.Y) }},
+	{Name: "AxpyUnitaryTo", Family: "Axpy", Classes: vkAll, Ref: ik.RefAxpyUnitaryTo[float64],
+		Shape: ik.Shape{HasX: true, HasY: true, HasDst: true, Alpha: true, AliasX: true, AliasY: true},
+		Call:  func(a *vkArgs) { AxpyUnitaryTo(a.Dst, a.Alpha, a.X, a.Y) }},
+	{Name: "AxpyInc", Family: "Axpy", Classes: vkAll, Ref: ik.RefAxpyInc[float64],
+		Shape: ik.Shape{HasX: true, HasY: true, Inc: true, Idx: true, WritesY: true, Alpha: true, NegInc: true},
+		Call:  func(a *vkArgs) { AxpyInc(a.Alpha, a.X, a.Y, a.N, a.IncX, a.IncY, a.IX, a.IY) }},
+	{Name: "AxpyIncTo", Family: "Axpy", Classes: vkAll, Ref: ik.RefAxpyIncTo[float64],
+		Shape: ik.Shape{HasX: true, HasY: true, HasDst: true, Inc: true, Idx: true, Alpha: true, AliasX: true, AliasY: true, NegInc: true},
+		Call: func(a *vkArgs) {
+			AxpyIncTo(a.Dst, a.IncD, a.ID, a.Alpha, a.X, a.Y, a.N, a.IncX, a.IncY, a.IX, a.IY)
+		}},
+
+	{Name: "DotUnitary", Family: "Dot", Classes: vkNoSpec, Red: ik.RedDot,
+		Shape: ik.Shape{HasX: true, HasY: true},
+		Call:  func(a *vkArgs) { a.Ret = vkRet(DotUnitary(a.X, a.Y)) }},
+	{Name: "DotInc", Family: "Dot", Classes: vkNoSpec, Red: ik.RedDot,
+		Shape: ik.Shape{HasX: true, HasY: true, Inc: true, Idx: true, NegInc: true},
+		Call:  func(a *vkArgs) { a.Ret = vkRet(DotInc(a.X, a.Y, a.N, a.IncX, a.IncY, a.IX, a.IY)) }},
+
+	{Name: "ScalUnitary", Family: "Scal", Classes: vkAll, Ref: ik.RefScalUnitary[float64],
+		Shape: ik.Shape{HasX: true, WritesX: true, Alpha: true},
+		Call:  func(a *vkArgs) { ScalUnitary(a.Alpha, a.X) }},
+	{Name: "ScalUnitaryTo", Family: "Scal", Classes: vkAll, Ref: ik.RefScalUnitaryTo[float64],
+		Shape: ik.Shape{HasX: true, HasDst: true, Alpha: true, AliasX: true},
+		Call:  func(a *vkArgs) { ScalUnitaryTo(a.Dst, a.Alpha, a.X) }},
+	{Name: "ScalInc", Family: "Scal", Classes: vkAll, Ref: ik.RefScalInc[float64],
+		Shape: ik.Shape{HasX: true, Inc: true, WritesX: true, Alpha: true},
+		Call:  func(a *vkArgs) { ScalInc(a.Alpha, a.X, a.N, a.IncX) }},
+	{Name: "ScalIncTo", Family: "Scal", Classes: vkAll, Ref: ik.RefScalIncTo[float64],
+		Shape: ik.Shape{HasX: true, HasDst: true, Inc: true, Alpha: true, AliasX: true},
+		Call:  func(a *vkArgs) { ScalIncTo(a.Dst, a.IncD, a.Alpha, a.X, a.N, a.IncX) }},
+
+	{Name: "Add", Family: "Elem", Classes: vkAll, Ref: ik.RefAdd[float64],
+		Shape: ik.Shape{HasX: true, HasY: true, WritesY: true},
+		Call:  func(a *vkArgs) { Add(a.Y, a.X) }},
+	{Name: "AddConst", Family: "Elem", Classes: vkAll, Ref: ik.RefAddConst[float64],
+		Shape: ik.Shape{HasX: true, WritesX: true, Alpha: true},
+		Call:  func(a *vkArgs) { AddConst(a.Alpha, a.X) }},
+	{Name: "CumSum", Family: "Elem", Classes: vkAll, Ref: ik.RefCumSum[float64], Prefix: "sum",
+		Shape: ik.Shape{HasX: true, HasDst: true, RetDst: true, AliasX: true},
+		Call:  func(a *vkArgs) { a.RetS = CumSum(a.Dst, a.X) }},
+	{Name: "CumProd", Family: "Elem", Classes: vkAll, Ref: ik.RefCumProd[float64], Prefix: "prod",
+		Shape: ik.Shape{HasX: true, HasDst: true, RetDst: true, AliasX: true},
+		Call:  func(a *vkArgs) { a.RetS = CumProd(a.Dst, a.X) }},
+	{Name: "Div", Family: "Elem", Classes: vkAll, Ref: ik.RefDiv[float64],
+		Shape: ik.Shape{HasX: true, HasY: true, WritesY: true},
+		Call:  func(a *vkArgs) { Div(a.Y, a.X) }},
+	{Name: "DivTo", Family: "Elem", Classes: vkAll, Ref: ik.RefDivTo[float64],
+		Shape: ik.Shape{HasX: true, HasY: true, HasDst: true, RetDst: true, AliasX: true, AliasY: true},
+		Call:  func(a *vkArgs) { a.RetS = DivTo(a.Dst, a.X, a.Y) }},
+
+	{Name: "Sum", Family: "Norm", Classes: vkNoSpec, Red: ik.RedSum,
+		Shape: ik.Shape{HasX: true},
+		Call:  func(a *vkArgs) { a.Ret = vkRet(Sum(a.X)) }},
+	{Name: "L1Norm", Family: "Norm", Classes: vkNoSpec, Red: ik.RedL1,
+		Shape: ik.Shape{HasX: true},
+		Call:  func(a *vkArgs) { a.Ret = vkRet(L1Norm(a.X)) }},
+	{Name: "L1NormInc", Family: "Norm", Classes: vkNoSpec, Red: ik.RedL1,
+		Shape: ik.Shape{HasX: true, Inc: true, IntInc: true},
+		Call:  func(a *vkArgs) { a.Ret = vkRet(L1NormInc(a.X, int(a.N), int(a.IncX))) }},
+	{Name: "L1Dist", Family: "Norm", Classes: vkNoSpec, Red: ik.RedL1Dist,
+		Shape: ik.Shape{HasX: true, HasY: true},
+		Call:  func(a *vkArgs) { a.Ret = vkRet(L1Dist(a.X, a.Y)) }},
+	{Name: "LinfDist", Family: "Norm", Classes: vkAll, Red: ik.RedLinfDist,
+		Shape: ik.Shape{HasX: true, HasY: true},
+		Call:  func(a *vkArgs) { a.Ret = vkRet(LinfDist(a.X, a.Y)) }},
+	{Name: "L2NormUnitary", Family: "Norm", Classes: vkAll, Red: ik.RedL2,
+		Shape: ik.Shape{HasX: true},
+		Call:  func(a *vkArgs) { a.Ret = vkRet(L2NormUnitary(a.X)) }},
+	{Name: "L2NormInc", Family: "Norm", Classes: vkAll, Red: ik.RedL2,
+		Shape: ik.Shape{HasX: true, Inc: true},
+		Call:  func(a *vkArgs) { a.Ret = vkRet(L2NormInc(a.X, a.N, a.IncX)) }},
+	{Name: "L2DistanceUnitary", Family: "Norm", Classes: vkAll, Red: ik.RedL2Dist,
+		Shape: ik.Shape{HasX: true, HasY: true},
+		Call:  func(a *vkArgs) { a.Ret = vkRet(L2DistanceUnitary(a.X, a.Y)) }},
+}
+
+func TestVKAxpy(t *testing.T) { ik.RunFamily(t, "f64", vkOps, "Axpy") }
+func TestVKDot(t *testing.T)  { ik.RunFamily(t, "f64", vkOps, "Dot") }
+func TestVKScal(t *testing.T) { ik.RunFamily(t, "f64", vkOps, "Scal") }
+func TestVKElem(t *testing.T) { ik.RunFamily(t, "f64", vkOps, "Elem") }
+func TestVKNorm(t *testing.T) { ik.RunFamily(t, "f64", vkOps, "Norm") }
+func TestVKGe(t *testing.T) {
+	ik.RunGe(t, "f64", ik.GeFns[float64]{Ger: Ger, GemvN: GemvN, GemvT: GemvT})
+}
